@@ -620,11 +620,115 @@ Definition accepts (a0 blocked : list nat) (evs : list event) : bool :=
   | None => false
   end.
 
+(* ====================================================================================== *)
+(* Event hooks across reloads (plugins.go: eventHooks, RegisterEventHook, cloneEventHooks,  *)
+(* purgeEventHooks, restoreEventHooks, EmitEvent; sigtrap_posix.go: the SIGUSR1 handler;     *)
+(* casket.go: startWithListenerFds).  A hook is (name, generation whose configuration        *)
+(* registered it); the directives of a configuration register their hooks while the          *)
+(* configuration is loaded (RegisterEventHook panics on a name that is already registered;   *)
+(* Restart recovers the panic and fails).                                                    *)
+(*   SIGUSR1 handler:  outer := clone; purge; EmitEvent(InstanceRestartEvent) (reaches the   *)
+(*                     hooks registered at THAT moment); Restart; on error restore outer     *)
+(*   Restart (startWithListenerFds): inner := clone; load (registers); on any failure        *)
+(*                     restore inner                                                         *)
+Definition hook := (nat * nat)%type.
+Definition hmem (x : nat) (h : list hook) : bool := existsb (fun p => Nat.eqb (fst p) x) h.
+
+Fixpoint hregister (g : nat) (names : list nat) (h : list hook) : option (list hook) :=
+  match names with
+  | [] => Some h
+  | x :: r => if hmem x h then None else hregister g r (h ++ [(x, g)])
+  end.
+
+Record hcall := { hc_sig : bool;          (* through the SIGUSR1 handler / Instance.Restart called directly *)
+                  hc_names : list nat;    (* hook names its directives register *)
+                  hc_fate : nat }.        (* 0 valid, otherwise the reload fails (after the registrations: the
+                                             latest possible moment; everything registered is thrown away) *)
+
+Record hstate := {
+  hs_reg : list hook;              (* the registry, in registration order *)
+  hs_cur : nat;                    (* generation in force *)
+  hs_names : list nat;             (* hook names of the configuration in force *)
+  hs_calls : nat;                  (* reload calls so far *)
+  hs_okg : list nat;               (* generations that were started successfully *)
+  hs_emit : list (list hook)       (* receivers of every InstanceRestartEvent emitted so far *)
+}.
+
+Definition hreload (s : hstate) (c : hcall) : hstate * bool :=
+  let g := S (hs_calls s) in
+  let outer := hs_reg s in
+  let h1 := if hc_sig c then [] else hs_reg s in
+  let em := if hc_sig c then h1 :: hs_emit s else hs_emit s in
+  let inner := h1 in
+  let fail := {| hs_reg := if hc_sig c then outer else inner; hs_cur := hs_cur s; hs_names := hs_names s;
+                 hs_calls := g; hs_okg := hs_okg s; hs_emit := em |} in
+  match hregister g (hc_names c) h1 with
+  | Some h2 =>
+      if Nat.eqb (hc_fate c) 0
+      then ({| hs_reg := h2; hs_cur := g; hs_names := hc_names c; hs_calls := g;
+               hs_okg := g :: hs_okg s; hs_emit := em |}, true)
+      else (fail, false)
+  | None => (fail, false)
+  end.
+
+Definition hinit (names0 : list nat) : hstate :=
+  {| hs_reg := map (fun x => (x, 0)) names0; hs_cur := 0; hs_names := names0; hs_calls := 0;
+     hs_okg := [0]; hs_emit := [] |}.
+
+Fixpoint hrun (s : hstate) (cs : list hcall) : hstate :=
+  match cs with [] => s | c :: r => hrun (fst (hreload s c)) r end.
+
+(* census (hook names that answer an event) after every reload, as the model predicts it *)
+Fixpoint hcensus (s : hstate) (cs : list hcall) : list (list nat) :=
+  match cs with
+  | [] => []
+  | c :: r => let s' := fst (hreload s c) in map fst (hs_reg s') :: hcensus s' r
+  end.
+
+(* executable specification on the OBSERVED censuses (independent of [hreload]): per reload
+   (names, observed success, census after the return).  The census always contains the hooks of
+   the configuration in force and never a hook of a configuration whose reload failed; a failed
+   reload leaves it as it was; through the SIGUSR1 handler it is exactly the hooks of the
+   configuration in force. *)
+Definition subset (a b : list nat) : bool := forallb (fun x => mem x b) a.
+Definition disjoint (a b : list nat) : bool := forallb (fun x => negb (mem x b)) a.
+Fixpoint hspec (sig : bool) (curn prev failed : list nat) (obs : list (list nat * bool * list nat)) : bool :=
+  match obs with
+  | [] => true
+  | (names, ok, cen) :: r =>
+      let curn' := if ok then names else curn in
+      let failed' := if ok then failed else names ++ failed in
+      subset curn' cen && disjoint cen failed'
+      && (if ok then true else natlist_eqb cen prev)
+      && (if sig then subset cen curn' else true)
+      && hspec sig curn' cen failed' r
+  end.
+
+Definition hooks_agree (sig : bool) (names0 : list nat) (cen0 : list nat)
+           (obs : list (list nat * nat * bool * list nat)) : bool :=
+  natlist_eqb cen0 names0 &&
+  list_beq natlist_eqb
+    (hcensus (hinit names0) (map (fun o => match o with (names, fate, _, _) =>
+                                   {| hc_sig := sig; hc_names := names; hc_fate := fate |} end) obs))
+    (map (fun o => match o with (_, _, _, cen) => cen end) obs).
+
+Definition hooks_spec (sig : bool) (names0 cen0 : list nat) (obs : list (list nat * nat * bool * list nat)) : bool :=
+  subset names0 cen0 && subset cen0 names0 &&
+  hspec sig names0 cen0 [] (map (fun o => match o with (names, _, ok, cen) => (names, ok, cen) end) obs).
+
 (* ---- cases ---- *)
 Inductive case :=
-| CHist (a0 blocked : list nat) (evs : list event).
+| CHist (a0 blocked : list nat) (evs : list event)
+(* the same lineage together with the event-hook censuses taken after the first Start and after
+   every reload: per reload (hook names of the configuration, declared fate (0 valid), observed
+   success, census) *)
+| CHistH (a0 blocked : list nat) (evs : list event) (sig : bool) (names0 cen0 : list nat)
+         (hobs : list (list nat * nat * bool * list nat)).
 
 Definition judge (c : case) : N :=
   match c with
   | CHist a0 blocked evs => verdict (accepts a0 blocked evs) (spec_trace a0 evs)
+  | CHistH a0 blocked evs sig names0 cen0 hobs =>
+      verdict (accepts a0 blocked evs && hooks_agree sig names0 cen0 hobs)
+              (spec_trace a0 evs && hooks_spec sig names0 cen0 hobs)
   end.
